@@ -328,6 +328,10 @@ def op_table(op):
                "        forall|a: int| 0 <= a < rix && #[trigger] ix.d@[a] ==> a < sink.r,\n"
                "        forall|a: int, b: int| 0 <= a < sink.r && 0 <= b < sink.c ==> #[trigger] sink.at(a, b) == (if (b < cix || (b == cix && a < rix)) && a < ix.d@.len() && ix.d@[a] { %s(old(sink).at(a, b), source) } else { old(sink).at(a, b) })," % F],
         loopvars=["cix", "rix"])
+    if op == "div":
+        # div_assign_2d_vector_all_b has its own shape (`row = i / ncols` over iter_mut(): it reads the column-major linear
+        # index as if it were row-major) and is unreachable (op_assign_range_all_fxn! never tries the mask arms): no contract
+        del T["div_assign_2d_vector_all_b"]
     T["%s_assign_2d_vector_all" % op] = dict(
         structs="%sAssign2DRAS" % op.capitalize(), params=["source", "ix", "sink"], scalars=["source"], sig="source: u64, ix: &IVec, sink: &mut Mat",
         requires=["old(sink).wf()", "ix.d@.len() >= 1"] + NE, valid="(ix_ok(ix.d@, old(sink).r as int) && distinct(ix.d@))",
